@@ -217,7 +217,7 @@ impl BroCatli {
             last_bytes = [17u8, log_window_size | 64 | 128];
             last_bytes_len = 2;
         } else if log_window_size == 16 {
-            last_bytes = [1 | 2 | 4, 0];
+            last_bytes = [2 | 4, 0]; // WBITS for 16 is a single 0 bit, then the two marker bits
             last_bytes_len = 1;
         } else if log_window_size > 17 {
             last_bytes = [(3 + (log_window_size - 18) * 2) | (16 | 32), 0];
